@@ -192,6 +192,13 @@ def case_correction(col, p):
         return dadi.Spectrum(holder['data'].copy(), mask_corners=False)
     np.random.seed(p.get('seed', 0) + 7)
     LP.rng = np.random.default_rng(p.get('seed', 0) + 7)
+    if p.get('prehistory'):
+        # another wrapped model with the same sizes and settings but another coverage distribution was built and used earlier in this process
+        cov0 = {q: covs[p['prehistory']] for q in pops}
+        holder['data'] = np.full(shape, 1.0 / N)
+        f0 = LP.make_low_pass_func_GATK_multisample(model, cov0, pops, list(nseq), list(nsub), sim_threshold=thr, Fx=Fx, nsim=200)
+        f0(None, list(nsub), None)
+        col.tick(transitions=1)
     f = LP.make_low_pass_func_GATK_multisample(model, cov, pops, list(nseq), list(nsub), sim_threshold=thr, Fx=Fx, nsim=200)
     cnt = 0
     deep = cname in ('point80',)
@@ -222,10 +229,100 @@ def case_correction(col, p):
                 if not np.allclose(od, proj, rtol=0, atol=1e-9):
                     col.violation('C18:make_low_pass_func:deep_coverage_not_projection', info, {'maxdiff': float(np.abs(od - proj).max())})
     col.tick(states=cnt, traces=cnt)
-    col.distinct('nontrivial', ('correction', nseq, nsub, tuple(Fx), thr, cname))
+    col.distinct('nontrivial', ('correction', nseq, nsub, tuple(Fx), thr, cname, p.get('prehistory')))
 
 
-CASES = {'partitions': case_partitions, 'matrices': case_matrices, 'correction': case_correction}
+class _EnvRng(object):
+    """stand-in for LowPass.rng that answers shuffling requests from an enumerated choice list (numpy Generator semantics:
+    permuted(a, axis=1) shuffles every row independently, permutation(a, axis=1) applies ONE permutation of the columns to all rows)"""
+    def __init__(self, answers):
+        self.answers = list(answers)
+        self.requests = []
+
+    def _perm(self, k, which):
+        perms = list(itertools.permutations(range(k)))
+        return perms[which % len(perms)], len(perms)
+
+    def permuted(self, a, axis=None, out=None):
+        a = np.array(a)
+        assert axis == 1 and a.ndim == 2
+        outa = a.copy()
+        for r in range(a.shape[0]):
+            w = self.answers.pop(0) if self.answers else 0
+            pm, nper = self._perm(a.shape[1], w)
+            self.requests.append(nper)
+            outa[r] = a[r, list(pm)]
+        return outa
+
+    def permutation(self, a, axis=0):
+        a = np.array(a)
+        w = self.answers.pop(0) if self.answers else 0
+        pm, nper = self._perm(a.shape[axis], w)
+        self.requests.append(nper)
+        return np.take(a, list(pm), axis=axis)
+
+    def __getattr__(self, name):
+        raise AttributeError('environment stub: random primitive %r is not modelled' % name)
+
+
+def case_subsample_env(col, p):
+    """subsample_genotypes_1D under EVERY answer of its random source: each locus keeps n_sub/2 of its called genotypes, and every
+    combination of per-locus subsets is reachable (loci are subsampled independently of each other)"""
+    from dadi.LowPass import LowPass as LP
+    calls, nsub = p['calls'], p['nsub']
+    rows = p['rows']
+    k = nsub // 2
+    G = np.array([[(r + c) % 3 for c in range(calls)] + [99] * p['missing'] for r in range(rows)], dtype=int)
+    # discover the request pattern with the default answers, then enumerate all answers
+    old = LP.rng
+    reach = set()
+    n = 0
+    try:
+        env = _EnvRng([])
+        LP.rng = env
+        LP.subsample_genotypes_1D(G.copy(), nsub)
+        sizes = list(env.requests)
+        for ans in itertools.product(*[range(s) for s in sizes]):
+            env = _EnvRng(ans)
+            LP.rng = env
+            out = LP.subsample_genotypes_1D(G.copy(), nsub)
+            col.tick(transitions=1)
+            n += 1
+            if out.shape != (rows, k):
+                col.violation('C18:subsample_genotypes_1D:shape', dict(p, answer=ans), str(out.shape))
+                continue
+            key = []
+            for r in range(rows):
+                have = sorted(G[r][G[r] != 99].tolist())
+                got = sorted(out[r].tolist())
+                tmp = list(have)
+                ok = True
+                for g in got:
+                    if g in tmp:
+                        tmp.remove(g)
+                    else:
+                        ok = False
+                if not ok:
+                    col.violation('C18:subsample_genotypes_1D:not_a_subset_of_the_called_genotypes', dict(p, answer=ans, row=r), {'got': got, 'called': have})
+                key.append(tuple(got))
+            reach.add(tuple(key))
+    except AttributeError as e:
+        col.violation('C18:subsample_genotypes_1D:random_source', dict(p), str(e))
+    finally:
+        LP.rng = old
+    # expected reachable set: product over loci of all k-multisubsets of the called genotypes
+    per = []
+    for r in range(rows):
+        have = G[r][G[r] != 99].tolist()
+        per.append(sorted(set(tuple(sorted(c)) for c in itertools.combinations(have, k))))
+    want = set(itertools.product(*per))
+    if reach != want:
+        col.violation('C18:subsample_genotypes_1D:loci_not_subsampled_independently', dict(p), {'reachable': len(reach), 'expected': len(want)})
+    col.tick(states=n, traces=n)
+    col.distinct('nontrivial', ('subsample_env', calls, nsub, rows, p['missing']))
+
+
+CASES = {'subsample_env': case_subsample_env, 'partitions': case_partitions, 'matrices': case_matrices, 'correction': case_correction}
 
 
 def _dispatch(col, case):
@@ -259,6 +356,12 @@ def run(ctx):
             for F in ([0] * len(nseq), [0.3] * len(nseq), ([0.5, 0, 0.2][:len(nseq)])):
                 for thr in ((1e-2, 1) if cname != 'mix0_4' else (1,)):
                     cases.append({'kind': 'correction', 'nseq': nseq, 'nsub': nsub, 'F': list(F), 'sim_threshold': thr, 'coverage': cname, 'seed': ctx.seed})
+    for calls, nsub, rows, missing in ((3, 2, 2, 1), (3, 4, 2, 0), (4, 4, 2, 2)) + (((3, 2, 3, 0), (4, 6, 2, 1)) if not ctx.quick else ()):
+        cases.append({'kind': 'subsample_env', 'calls': calls, 'nsub': nsub, 'rows': rows, 'missing': missing})
+    for nseq, nsub in (((4,), (2,)), ((6,), (4,)), ((4, 2), (2, 2))):
+        for pre in ('mix0_4', 'uniform0_10'):
+            cases.append({'kind': 'correction', 'nseq': nseq, 'nsub': nsub, 'F': [0] * len(nseq), 'sim_threshold': 1e-2, 'coverage': 'point80', 'seed': ctx.seed,
+                          'prehistory': pre})
     if not ctx.quick:
         for nseq, nsub in (((6,), (2,)), ((6,), (6,)), ((10,), (6,)), ((12,), (4,)), ((6, 4), (4, 2)), ((2, 6), (2, 4)), ((2, 4, 2), (2, 2, 2))):
             for cname in covnames:
